@@ -47,6 +47,23 @@ def all_defined_names(model: Model) -> Set[str]:
         out.add(c.name)
     for fi in model.files.values():
         out |= set(fi.functions) | set(fi.assigns)
+        for n in ast.walk(fi.tree):
+            # classes defined inside functions (MakePassFromVisitor.VisitorPass): methods and self-attribute stores
+            if isinstance(n, ast.ClassDef):
+                out.add(n.name)
+                for m in n.body:
+                    if isinstance(m, ast.FunctionDef):
+                        out.add(m.name)
+                        if m.args.args:
+                            s = m.args.args[0].arg
+                            for x in ast.walk(m):
+                                if isinstance(x, ast.Attribute) and isinstance(x.ctx, ast.Store) and isinstance(x.value, ast.Name) and x.value.id == s:
+                                    out.add(x.attr)
+            # namedtuple field names
+            if isinstance(n, ast.Call) and last_attr(n) == "namedtuple" and len(n.args) >= 2 and isinstance(n.args[1], (ast.List, ast.Tuple)):
+                for e in n.args[1].elts:
+                    if isinstance(e, ast.Constant) and isinstance(e.value, str):
+                        out.add(e.value)
     return out
 
 
